@@ -17,6 +17,7 @@ package main
 import (
 	"bytes"
 	"context"
+	"errors"
 	"fmt"
 	"sort"
 	"strings"
@@ -56,13 +57,31 @@ type recDB struct {
 	inner *memorydb.DB
 	mu    sync.Mutex
 	puts  int64
+	gets  int64
 	bad   []string
+
+	// storage fault injection: the Put / Get with this 1-based index fails once (0 = never)
+	failPutAt   int64
+	failGetAt   int64
+	putFaults   int64 // injected so far
+	getFaults   int64
+	faultedKeys []string
 }
+
+var errInjectedWriteFault = errors.New("verif: injected storage write fault")
+var errInjectedReadFault = errors.New("verif: injected storage read fault")
 
 func (d *recDB) Put(key, val []byte) error {
 	k := append([]byte{}, key...)
 	v := append([]byte{}, val...)
-	atomic.AddInt64(&d.puts, 1)
+	n := atomic.AddInt64(&d.puts, 1)
+	if d.failPutAt > 0 && n == d.failPutAt {
+		atomic.AddInt64(&d.putFaults, 1)
+		d.mu.Lock()
+		d.faultedKeys = append(d.faultedKeys, "put:"+vk.Hex(k))
+		d.mu.Unlock()
+		return errInjectedWriteFault
+	}
 	if !bytes.Equal(hsh.Compute(string(v)), k) {
 		d.mu.Lock()
 		if len(d.bad) < 4 {
@@ -72,10 +91,20 @@ func (d *recDB) Put(key, val []byte) error {
 	}
 	return d.inner.Put(k, v)
 }
-func (d *recDB) Get(key []byte) ([]byte, error) { return d.inner.Get(key) }
-func (d *recDB) Remove(key []byte) error        { return d.inner.Remove(key) }
-func (d *recDB) Close() error                   { return nil }
-func (d *recDB) IsInterfaceNil() bool           { return d == nil }
+func (d *recDB) Get(key []byte) ([]byte, error) {
+	n := atomic.AddInt64(&d.gets, 1)
+	if d.failGetAt > 0 && n == d.failGetAt {
+		atomic.AddInt64(&d.getFaults, 1)
+		d.mu.Lock()
+		d.faultedKeys = append(d.faultedKeys, "get:"+vk.Hex(key))
+		d.mu.Unlock()
+		return nil, errInjectedReadFault
+	}
+	return d.inner.Get(key)
+}
+func (d *recDB) Remove(key []byte) error { return d.inner.Remove(key) }
+func (d *recDB) Close() error            { return nil }
+func (d *recDB) IsInterfaceNil() bool    { return d == nil }
 
 // ---------------------------------------------------------------------------------------
 // trie generation
@@ -314,9 +343,12 @@ type syncParams struct {
 	cacherCap  int
 	hardCap    int
 	prepop     int // 0 none, 1 previous version complete, 2 random subset of the target nodes
+	fault      int // 0 none, 1 exactly one destination-DB Put fails once, 2 exactly one destination-DB Get fails once
 	pair       bool
 	sched      schedParams
 }
+
+var faultNames = []string{"none", "one-put-fails", "one-get-fails"}
 
 var cacherNames = []string{"adapter-large", "adapter-tiny-overflow-to-db", "lru-large", "lru-tiny-lossy", "sizelru-small-lossy"}
 
@@ -452,6 +484,12 @@ func runSync(r *vk.Run, c *vk.Case, rng *vk.Rand, src, foreign *source, p syncPa
 	}
 
 	dst := &recDB{inner: memorydb.New()}
+	switch p.fault {
+	case 1: // both syncers commit every node they traverse, so there are at least len(nodes) Puts
+		dst.failPutAt = int64(1 + rng.Intn(len(src.nodes)))
+	case 2: // every node lookup that misses the cacher reads the DB
+		dst.failGetAt = int64(1 + rng.Intn(2*len(src.nodes)))
+	}
 	prepopulated := 0
 	switch p.prepop {
 	case 1:
@@ -561,6 +599,13 @@ func runSync(r *vk.Run, c *vk.Case, rng *vk.Rand, src, foreign *source, p syncPa
 	r.Count("requested_hashes", int(net.hashes))
 	r.Count("resolver_answered_rounds", int(w.viaResolver))
 	r.Count("db_dst_puts", int(dst.puts))
+	r.Count("db_dst_gets", int(dst.gets))
+	r.Count("syncs_with_fault_mode:"+faultNames[p.fault], len(targets))
+	r.Count("injected_write_faults", int(dst.putFaults))
+	r.Count("injected_read_faults", int(dst.getFaults))
+	if p.fault != 0 && dst.putFaults+dst.getFaults == 0 {
+		r.Count("fault_index_not_reached", 1)
+	}
 	r.Count("db_dst_prepopulated_entries", prepopulated)
 	r.Count("genuine_rejected_by_receive_path", int(w.genuineRej))
 	r.Max("scheduler_rounds_max", w.rounds)
@@ -580,6 +625,7 @@ func runSync(r *vk.Run, c *vk.Case, rng *vk.Rand, src, foreign *source, p syncPa
 		return map[string]interface{}{
 			"syncer_version": p.version, "cacher": cacherNames[p.cacherKind], "cacher_cap": p.cacherCap,
 			"hard_cap": p.hardCap, "prepop": p.prepop, "pair": p.pair, "sched": fmt.Sprintf("%+v", p.sched),
+			"fault_mode": faultNames[p.fault], "injected_faults": append([]string{}, dst.faultedKeys...),
 			"leaves": len(src.model), "root": vk.Hex(src.root), "source_nodes": len(src.nodes),
 		}
 	}
@@ -629,6 +675,12 @@ func runSync(r *vk.Run, c *vk.Case, rng *vk.Rand, src, foreign *source, p syncPa
 			r.Violation(c.Idx, "panic-in-syncer:"+vk.TopFrame(o.stack), "StartSyncing panicked at "+vk.TopFrame(o.stack), d)
 			continue
 		}
+		if o.err != nil && dst.putFaults > 0 && errors.Is(o.err, errInjectedWriteFault) {
+			// the defined outcome of a failed write: the sync stops with that error
+			r.Eval(1)
+			r.Count("sync_returned_injected_write_error_"+vn, 1)
+			continue
+		}
 		if o.err != nil {
 			reason := o.err.Error()
 			if atomic.LoadInt32(&deadlineHit) == 1 && o.err == trie.ErrContextClosing {
@@ -639,8 +691,20 @@ func runSync(r *vk.Run, c *vk.Case, rng *vk.Rand, src, foreign *source, p syncPa
 			continue
 		}
 		r.Count("syncs_completed_"+vn, 1)
+		if dst.putFaults > 0 {
+			r.Count("syncs_completed_nil_after_injected_write_fault_"+vn, 1)
+		}
+		if dst.getFaults > 0 {
+			r.Count("syncs_completed_nil_after_injected_read_fault_"+vn, 1)
+		}
 		checkSynced(r, c, dst, t, p, baseDetail)
 		kinds := hostileKinds(w)
+		if dst.putFaults > 0 {
+			kinds += ",write-fault"
+		}
+		if dst.getFaults > 0 {
+			kinds += ",read-fault"
+		}
 		if kinds == "" {
 			r.Trivial()
 			continue
@@ -703,7 +767,14 @@ func checkSynced(r *vk.Run, c *vk.Case, dst *recDB, t *source, p syncParams, bas
 		d["missing_nodes"] = missing
 		d["first_missing"] = firstMissing
 		d["is_root"] = firstMissing == vk.Hex(t.root)
-		r.Violation(c.Idx, "missing-node-after-sync", fmt.Sprintf("StartSyncing returned nil but %d of %d nodes reachable from root %s are not in the destination DB (first %s)", missing, len(t.nodes), vk.Hex(t.root), firstMissing), d)
+		key := "missing-node-after-sync"
+		switch {
+		case dst.putFaults > 0:
+			key += " class=after-swallowed-write-fault"
+		case dst.getFaults > 0:
+			key += " class=after-read-fault"
+		}
+		r.Violation(c.Idx, key, fmt.Sprintf("StartSyncing returned nil but %d of %d nodes reachable from root %s are not in the destination DB (first %s)", missing, len(t.nodes), vk.Hex(t.root), firstMissing), d)
 	}
 	if differ > 0 {
 		d := baseDetail()
@@ -804,11 +875,12 @@ func checkSynced(r *vk.Run, c *vk.Case, dst *recDB, t *source, p syncParams, bas
 func main() {
 	_ = logger.SetLogLevel("*:NONE")
 	r := vk.Start("C05")
-	r.Rule("a case = one generated source trie (1-400 leaves, keys with shared suffixes so that extension nodes occur, values 1 B - 3 KB, 1 in 10 tries with one value above 256 KB; 1 in 3 tries is a second version on top of a committed previous one) synced by BOTH real syncers, each under its own random hostile schedule (per-hash drops<=3 and delays<=4 rounds with guaranteed later answer, reordering, duplicates, late duplicates, partial batches delivered by 1-3 concurrent goroutines, children pushed ahead of request or the real TrieNodeResolver answering with sub-tries, unrelated valid nodes, non-canonical re-encodings, forged/malformed messages), cacher in {production storageCacherAdapter large / tiny-with-overflow, LRU large / tiny lossy, byte-bounded LRU}, destination DB empty / holding the previous version / a random third of the target nodes, hard cap in {1,3,20,500,10000}; 1 in 5 cases syncs a second overlapping trie concurrently through the same cacher and DB. A sync is non-trivial if StartSyncing returned nil and at least one hostile event happened; distinct = (syncer, cacher, leaf bucket, hard-cap bucket, prepopulation, pair, resolver, has-extension, set of hostile kinds).")
+	r.Rule("a case = one generated source trie (1-400 leaves, keys with shared suffixes so that extension nodes occur, values 1 B - 3 KB, 1 in 10 tries with one value above 256 KB; 1 in 3 tries is a second version on top of a committed previous one) synced by BOTH real syncers, each under its own random hostile schedule (per-hash drops<=3 and delays<=4 rounds with guaranteed later answer, reordering, duplicates, late duplicates, partial batches delivered by 1-3 concurrent goroutines, children pushed ahead of request or the real TrieNodeResolver answering with sub-tries, unrelated valid nodes, non-canonical re-encodings, forged/malformed messages), cacher in {production storageCacherAdapter large / tiny-with-overflow, LRU large / tiny lossy, byte-bounded LRU}, destination DB empty / holding the previous version / a random third of the target nodes, hard cap in {1,3,20,500,10000}; storage faults on the destination DB: in 1 of 4 syncs exactly one Put (random index) returns an error once, in about 1 of 10 exactly one Get does; 1 in 5 cases syncs a second overlapping trie concurrently through the same cacher and DB. A sync is non-trivial if StartSyncing returned nil and at least one hostile event happened; distinct = (syncer, cacher, leaf bucket, hard-cap bucket, prepopulation, pair, resolver, has-extension, set of hostile kinds).")
 	r.Assume(
 		"blake2b and the gogo-proto marshalizer are trusted; reachability / child hashes are parsed by the harness from the source DB bytes",
 		"the network is fair: every request for a known hash is answered after at most 3 ignored requests and 4 delay rounds; lossy cachers make progress probabilistic, runs that hit the virtual deadline (scheduler rounds) or the syncer's own timeout are counted per-case inconclusive",
 		"chunked transfer of nodes above 256 KB is a p2p-layer concern and not modelled: such nodes are delivered whole",
+		"an injected destination-DB write fault may end the sync with that error (counted, the case ends there); if StartSyncing returns nil after an injected Put or Get fault the full completeness oracle applies",
 		"the poll sleeps of the syncers are shortened to 2 ms through data/trie/verif_hooks.go (speed only)",
 	)
 	r.MinShapes(r.N(20, 200))
@@ -855,6 +927,11 @@ func main() {
 				p.cacherKind = 2
 			}
 			p.hardCap = []int{1, 3, 20, 500, 10000}[rng.Intn(5)]
+			if rng.Chance(1, 4) {
+				p.fault = 1
+			} else if rng.Chance(1, 8) {
+				p.fault = 2
+			}
 			if withOld {
 				p.prepop = []int{0, 1, 1, 2}[rng.Intn(4)]
 			} else {
